@@ -9,6 +9,7 @@ import (
 	"runtime/metrics"
 	"strconv"
 	"strings"
+	"sync/atomic"
 	"syscall"
 	"time"
 
@@ -25,7 +26,8 @@ type minput struct {
 }
 
 const (
-	childAddressSpace = 2 << 30 // RLIMIT_AS of the decoding child
+	childAllocAbort   = 48 << 20 // the child's watchdog aborts a decode that has allocated this much (+ 64 per input byte)
+	childAddressSpace = 4 << 30   // RLIMIT_AS of the decoding child (backstop for single huge allocations)
 	allocPerByte      = 64      // allocation allowed per input byte ...
 	allocSlack        = 16 << 20 // ... plus a constant covering the documented caps (65535/65536-entry maps)
 )
@@ -37,9 +39,29 @@ func heapAllocs(s []metrics.Sample) uint64 {
 
 // runChild: decode every input line "op hc kind hex" from stdin, print "R idx alloc term".
 func runChild() {
-	lim := syscall.Rlimit{Cur: childAddressSpace, Max: childAddressSpace}
+	as := uint64(childAddressSpace)
+	if v, err := strconv.ParseUint(os.Getenv("XV_CHILD_AS"), 10, 64); err == nil && v > 0 {
+		as = v
+	}
+	lim := syscall.Rlimit{Cur: as, Max: as}
 	_ = syscall.Setrlimit(syscall.RLIMIT_AS, &lim)
 	sample := []metrics.Sample{{Name: "/gc/heap/allocs:bytes"}}
+	// watchdog: a decode that allocates more than childAllocAbort is reported and the process exits at once
+	// (without it the runtime grinds on until the address-space limit kills it, seconds later)
+	var curStart, curIdx, curLen atomic.Int64
+	curIdx.Store(-1)
+	go func() {
+		ws := []metrics.Sample{{Name: "/gc/heap/allocs:bytes"}}
+		for {
+			time.Sleep(2 * time.Millisecond)
+			if i := curIdx.Load(); i >= 0 {
+				if d := int64(heapAllocs(ws)) - curStart.Load(); d > childAllocAbort+allocPerByte*curLen.Load() {
+					os.Stdout.WriteString(fmt.Sprintf("A %d %d\n", i, d))
+					os.Exit(0)
+				}
+			}
+		}
+	}()
 	in := bufio.NewScanner(os.Stdin)
 	in.Buffer(make([]byte, 1<<20), 64<<20)
 	w := bufio.NewWriter(os.Stdout)
@@ -59,6 +81,9 @@ func runChild() {
 		fmt.Fprintf(w, "S %d\n", idx)
 		w.Flush()
 		before := heapAllocs(sample)
+		curStart.Store(int64(before))
+		curLen.Store(int64(len(bs)))
+		curIdx.Store(int64(idx))
 		out := func() (out lib.T) {
 			defer func() {
 				if r := recover(); r != nil {
@@ -68,6 +93,7 @@ func runChild() {
 			o, _, _, _ := decodeOp(op, hc, kind, bs)
 			return o
 		}()
+		curIdx.Store(-1)
 		after := heapAllocs(sample)
 		fmt.Fprintf(w, "R %d %d %s\t%s\n", idx, after-before, lib.Show(out), lib.Show(oracleTerm(refCalls)))
 		if after-before > 32<<20 {
@@ -90,7 +116,7 @@ func (h *H) decodeInChild(inputs []minput) {
 	}
 	next := 0
 	restarts := 0
-	for next < len(inputs) && restarts < 60 {
+	for next < len(inputs) && restarts < 20 {
 		var sb strings.Builder
 		for _, m := range inputs[next:] {
 			hc := 0
@@ -130,6 +156,15 @@ func (h *H) decodeInChild(inputs []minput) {
 				}
 				switch {
 				case strings.HasPrefix(l, "X "):
+					voluntary = true
+				case strings.HasPrefix(l, "A "):
+					var i int
+					var alloc uint64
+					fmt.Sscanf(l, "A %d %d", &i, &alloc)
+					m := inputs[next+i]
+					h.roundtrip("alloc:decode:"+entryShort(m), decodeIn(m.op, m.hc, m.kind, m.bs, lib.L()), fmt.Sprintf("%s: decoding %d bytes with %s had allocated %d bytes when the watchdog aborted it (limit %d; bound %d*len+%d)", m.tag, len(m.bs), entryName(m), alloc, childAllocAbort, allocPerByte, allocSlack))
+					h.o.Stats["mal-aborted"]++
+					done = i
 					voluntary = true
 				case strings.HasPrefix(l, "S "):
 					started, _ = strconv.Atoi(l[2:])
@@ -172,9 +207,9 @@ func (h *H) decodeInChild(inputs []minput) {
 		if len(tail) > 600 {
 			tail = tail[:600]
 		}
-		name := "crash:decode"
+		name := "crash:decode:" + entryShort(m)
 		if timedOut {
-			name = "timeout:decode"
+			name = "timeout:decode:" + entryShort(m)
 		}
 		h.roundtrip(name, in, fmt.Sprintf("%s input of %d bytes (%s): child process %v; stderr: %s", m.tag, len(m.bs), entryName(m), werr, tail))
 		h.o.Stats["mal-crashed"]++
@@ -184,6 +219,17 @@ func (h *H) decodeInChild(inputs []minput) {
 	if next < len(inputs) {
 		h.o.Monitor("crash:decode", nil, fmt.Sprintf("gave up after %d crashed children; %d inputs not decoded", restarts, len(inputs)-next))
 	}
+}
+
+// entryShort names the entry point inside monitor names: the wire name, ReadMessage or Envelope
+func entryShort(m minput) string {
+	switch m.op {
+	case 4:
+		return kindNames[m.kind]
+	case 5:
+		return "ReadMessage"
+	}
+	return "Envelope"
 }
 
 func entryName(m minput) string {
@@ -203,7 +249,7 @@ func (h *H) childResult(m minput, alloc uint64, term string) {
 	}
 	in := decodeIn(m.op, m.hc, m.kind, m.bs, oracle)
 	if strings.HasPrefix(term, "(2 ") { // a panic inside the decoder
-		h.roundtrip("panic:decode", in, m.tag+" "+entryName(m)+": "+term)
+		h.roundtrip("panic:decode:"+entryShort(m), in, m.tag+" "+entryName(m)+": "+term)
 		h.o.Stats["mal-panicked"]++
 		return
 	}
@@ -212,6 +258,6 @@ func (h *H) childResult(m minput, alloc uint64, term string) {
 	}
 	h.o.Case("mal:"+m.tag, len(m.bs) > 4, in, parseTerm(term))
 	if alloc > allocPerByte*uint64(len(m.bs))+allocSlack {
-		h.roundtrip("alloc:decode", in, fmt.Sprintf("%s: decoding %d bytes with %s allocated %d bytes (bound %d*len+%d)", m.tag, len(m.bs), entryName(m), alloc, allocPerByte, allocSlack))
+		h.roundtrip("alloc:decode:"+entryShort(m), in, fmt.Sprintf("%s: decoding %d bytes with %s allocated %d bytes (bound %d*len+%d)", m.tag, len(m.bs), entryName(m), alloc, allocPerByte, allocSlack))
 	}
 }
